@@ -218,8 +218,9 @@ impl Property for C19 {
          hold a seeded script of 1-3 operations on a seeded subset of the settings: setters with distinguishable proposals (limits from \
          {0, 1, 7, 56, 100, 1000, 4096, 65536, 1 MiB, 1 MiB+1, 2^31, default, default+1, usize::MAX}, validators / comparators that \
          accept one extra tagged name) and users whose outcome reveals the value in force (a declared length or count at limit-1 / limit \
-         / limit+1 through 23 decoding paths: generic and serde datum readers for bytes, string, fixed, arrays and maps, \
-         from_avro_datum, container block size, Codec::decompress and container blocks over five codecs, single-object reader; the \
+         / limit+1 through 28 decoding paths: generic and serde datum readers for bytes, string, fixed, arrays and maps (also written as two \
+         blocks), from_avro_datum, container block size (also as the third block after two smaller ones have grown the reused \
+         buffer), Codec::decompress and container blocks over five codecs, single-object reader; the \
          human-readable flag through to_value / from_value and the datum, container and single-object writers and readers; parsing a \
          schema that only one validator accepts; comparing two schemas that only one comparator equates). A baton scheduler releases one \
          thread at a time for one operation; the seeded schedule, not the OS, decides who goes next; invoke and return are stamped with \
